@@ -572,16 +572,18 @@ class HttpParser(abc.ABC, Generic[_MsgT]):
                             self._msg_in_flight += 1
                         self._should_close = msg.should_close
                 else:
-                    self._tail = data[start_pos:]
+                    tail = data[start_pos:]
                     # A bare LF here means CRLF was required:
                     # reject instead of buffering, else a following request's
                     # bytes get appended to this line and leak in the error.
-                    if b"\n" in self._tail:
+                    if b"\n" in tail:
                         raise BadHttpMessage("Bad line ending, expected CRLF")
                     # A trailing CR may be the first half of the line ending,
                     # it does not count towards the length of the line.
-                    if len(self._tail) - self._tail.endswith(b"\r") > max_line_length:
-                        raise LineTooLong(self._tail[:100] + b"...", max_line_length)
+                    if len(tail) - tail.endswith(b"\r") > max_line_length:
+                        raise LineTooLong(tail[:100] + b"...", max_line_length)
+                    # Only a line within the limits is retained.
+                    self._tail = tail
                     data = EMPTY
                     break
 
